@@ -133,13 +133,13 @@ class _SR:
         self.ns = ns
 
 
-def case_selection(ctx, n, max_wf, offset, length):
+def case_selection(ctx, n, max_wf, offset, length, nunits=2):
     import ibldsp.waveform_extraction as we
     ns = ctx.int("ns", length + 2, 10 ** 6)
     samples = [ctx.int(f"s{i}", 0, 10 ** 6) for i in range(n)]
     for i in range(n - 1):
         ctx.assume(samples[i] <= samples[i + 1])
-    clusters = [ctx.int(f"u{i}", 0, 1) for i in range(n)]
+    clusters = [ctx.int(f"u{i}", 0, nunits - 1) for i in range(n)]
     chans = [ctx.int(f"c{i}", 0, 383) for i in range(n)]
     res = ctx.call("make_wfs_table", we._make_wfs_table, _SR(ns), arrays.mk(list(samples), tag=np.dtype(np.int64)), arrays.mk(list(clusters), tag=np.dtype(np.int64)),
                    arrays.mk(list(chans), tag=np.dtype(np.int64)), max_wf=max_wf, trough_offset=offset, spike_length_samples=length, seed=None)
@@ -245,23 +245,30 @@ def cases(tier):
         cs.append(Case(f"cutout_{g}", "case_cutout", {"geom": g, "ns": 9, "length": 4, "offset": 1, "nwf": 2, "add_nan": True}, timeout_s=2400, max_paths=100000))
     cs.append(Case("cutout_np1_6_prepadded", "case_cutout", {"geom": "np1_6", "ns": 8, "length": 3, "offset": 2, "nwf": 1, "add_nan": False}, timeout_s=2400))
     for mw in b["max_wf"]:
-        cs.append(Case(f"selection_n{b['nspikes']}_maxwf{mw}", "case_selection", {"n": b["nspikes"], "max_wf": mw, "offset": 3, "length": 8}, timeout_s=3000, max_paths=400000))
+        n = b["nspikes"] if mw < 3 else 4        # the number of random choices grows as n!/(n-m)!: keep the product bounded
+        cs.append(Case(f"selection_n{n}_maxwf{mw}", "case_selection", {"n": n, "max_wf": mw, "offset": 3, "length": 8}, timeout_s=3400, max_paths=900000))
+    # three units, so that a unit without any valid spike can sit before two units that have some
+    for mw in ([1] if tier == "quick" else [1, 2]):
+        cs.append(Case(f"selection_3units_n4_maxwf{mw}", "case_selection", {"n": 4, "max_wf": mw, "offset": 3, "length": 8, "nunits": 3}, timeout_s=3400, max_paths=900000))
     for ic in (0, 1, 2):
         cs.append(Case(f"chunk_{ic}", "case_chunk", {"i_chunk": ic, "length": 8, "offset": 3}, timeout_s=2400))
+    # trough late in the window (offset > length / 2): the look-behind before a chunk is larger than the look-ahead after it
+    for ic in ((1,) if tier == "quick" else (0, 1, 2)):
+        cs.append(Case(f"chunk_{ic}_late_trough", "case_chunk", {"i_chunk": ic, "length": 8, "offset": 6}, timeout_s=2400))
     return cs
 
 
 def twins(tier):
     m = "ibldsp.waveform_extraction"
     b = bounds(tier)
-    sel = [f"selection_n{b['nspikes']}_maxwf{mw}" for mw in b["max_wf"]]
+    sel = [f"selection_n{b['nspikes'] if mw < 3 else 4}_maxwf{mw}" for mw in b["max_wf"]] + ["selection_3units_n4_maxwf1"]
     cut = [f"cutout_{g}" for g in GEOMS]
     return [
         Twin("validity_ge", m, "allowed_idx = (spike_samples > trough_offset) & (", "allowed_idx = (spike_samples >= trough_offset) & (", sel),
         Twin("offset_in_first_chunk", m, "    if i_chunk == 0:\n        offset = 0\n    else:\n        offset = trough_offset", "    offset = trough_offset", ["chunk_0"]),
         Twin("sind_without_offset", m, "        np.arange(spike_length_samples) - trough_offset\n", "        np.arange(spike_length_samples)\n", cut),
         Twin("cind_sind_swapped", m, "wfs[i, :, :] = arr[:, sind[i]][cind[i], :]", "wfs[i, :, :] = arr[:, sind[i]][cind[i][::-1], :]", cut),
-        Twin("chunk_offset_sign", m, 'sample = wf_flat["sample"].astype(int) + offset - i_chunk * chunksize_samples', 'sample = wf_flat["sample"].astype(int) - offset - i_chunk * chunksize_samples', ["chunk_1", "chunk_2"]),
+        Twin("chunk_offset_sign", m, 'sample = wf_flat["sample"].astype(int) + offset - i_chunk * chunksize_samples', 'sample = wf_flat["sample"].astype(int) - offset - i_chunk * chunksize_samples', ["chunk_1", "chunk_2", "chunk_1_late_trough"]),
         Twin("max_wf_plus_one", m, "u_wf_idx = rng.choice(u_spikeidx, min(max_wf, nspikes), replace=False)\n        unit_wf_idx[i, : min(max_wf, nspikes)] = u_wf_idx",
              "u_wf_idx = rng.choice(u_spikeidx, min(max_wf, max(nspikes - 1, min(nspikes, 1))), replace=False)\n        unit_wf_idx[i, : min(max_wf, max(nspikes - 1, min(nspikes, 1)))] = u_wf_idx", sel),
         Twin("neighbours_strict", "ibldsp.utils", "scipy.spatial.distance.squareform(scipy.spatial.distance.pdist(geom)) <= radius", "scipy.spatial.distance.squareform(scipy.spatial.distance.pdist(geom)) < radius", ["cutout_col_5"]),
